@@ -121,7 +121,7 @@ def _gen_cases(tier, seed):
                         yield dict(i=i, fmt=fmt, n=5, op="list", k=k, stride=stride, ai=ai)
                         i += 1
         return
-    nq = 4200
+    nq = 12000
     for j in range(nq):
         rng = common.rng_for("C02", seed, j)
         fmt = FMTS[j % len(FMTS)]
